@@ -371,11 +371,14 @@ def rule_shape(rep, d, methods, ctors, symmap):
 def rule_mode(rep):
     rep.rule("C16.mode", "contract-checking mode table: THROW -> contract_violation throws; TERMINATE (default without NDEBUG, C++14) -> "
                          "calls std::terminate; NDEBUG default -> checks compiled out")
-    for label, defines, extra, want in (
-            ("TCB_SPAN_THROW_ON_CONTRACT_VIOLATION", ["TCB_SPAN_THROW_ON_CONTRACT_VIOLATION"], [], "throw"),
-            ("default (no NDEBUG)", [], [], "terminate"),
-            ("default with NDEBUG", ["NDEBUG"], ["-DNDEBUG"], "off"),
-            ("TCB_SPAN_TERMINATE_ON_CONTRACT_VIOLATION + NDEBUG", ["NDEBUG", "TCB_SPAN_TERMINATE_ON_CONTRACT_VIOLATION"], [], "terminate")):
+    configs = []
+    for mode, want in (("TCB_SPAN_THROW_ON_CONTRACT_VIOLATION", "throw"), ("TCB_SPAN_TERMINATE_ON_CONTRACT_VIOLATION", "terminate"),
+                       ("TCB_SPAN_NO_CONTRACT_CHECKING", "off"), (None, None)):
+        for ndebug in (False, True):
+            defs = ([mode] if mode else []) + (["NDEBUG"] if ndebug else [])
+            w = want if mode else ("off" if ndebug else "terminate")
+            configs.append(((mode or "no mode macro") + (" + NDEBUG" if ndebug else ""), defs, [], w))
+    for label, defines, extra, want in configs:
         d = cj.dump(DRIVER, "tcb", defines=defines)
         cvs = [f for f in ir.functions(d, name="contract_violation")]
         firsts = [f for f in ir.functions(d, name="first") if ir.is_template_pattern(d, f)]
@@ -394,6 +397,26 @@ def rule_mode(rep):
                 ok = has_expect and ((want == "throw" and thr) or (want == "terminate" and term and not thr))
         (rep.holds if ok else rep.violates)("C16.mode", "contract_violation", "mode " + label, scenario=label,
                                             detail=got if ok else "expected %s, found: %s (checks %s)" % (want, got, "present" if has_expect else "absent"))
+
+
+def rule_types(rep):
+    from ..witness import WitnessTU
+    rep.rule("C16.types", "static sub-view types carry exactly the requested extent: first<N>/last<N> -> span<T,N>; subspan<O,C> -> "
+                          "span<T,C>; subspan<O> -> span<T,E-O> on a static parent and dynamic on a dynamic one; dynamic calls -> dynamic")
+    w = WitnessTU('#include "xtl/xspan.hpp"\n#include <type_traits>\n#include <utility>\nusing xtl::span; constexpr std::ptrdiff_t dyn = xtl::dynamic_extent;\n')
+    for E in (8, 5, "dyn"):
+        P = "span<int, %s>" % E
+        for n in (0, 1, 3, 5):
+            w.same("decltype(std::declval<%s>().first<%d>())" % (P, n), "span<int, %d>" % n, "C16.types", "first<N>", "return type", "%s N=%d" % (P, n))
+            w.same("decltype(std::declval<%s>().last<%d>())" % (P, n), "span<int, %d>" % n, "C16.types", "last<N>", "return type", "%s N=%d" % (P, n))
+            exp = "span<int, dyn>" if E == "dyn" else "span<int, %d>" % (E - n)
+            w.same("decltype(std::declval<%s>().subspan<%d>())" % (P, n), exp, "C16.types", "subspan<O>", "return type", "%s O=%d" % (P, n))
+            for c in (0, 2):
+                w.same("decltype(std::declval<%s>().subspan<%d, %d>())" % (P, n, c), "span<int, %d>" % c, "C16.types", "subspan<O,C>", "return type", "%s O=%d C=%d" % (P, n, c))
+        for call in ("first(2)", "last(2)", "subspan(1)", "subspan(1, 2)"):
+            w.same("decltype(std::declval<%s>().%s)" % (P, call), "span<int, dyn>", "C16.types", call.split("(")[0] + "(dynamic)", "return type", P)
+        w.must_hold("std::is_same<typename %s::index_type, std::size_t>::value" % P, "C16.types", "index_type", "is size_t", P)
+    w.run(rep, defines=["TCB_SPAN_THROW_ON_CONTRACT_VIOLATION"])
 
 
 def run(tier):
@@ -434,5 +457,6 @@ def run(tier):
         rule_at(rep, d, fn, symmap)
     rule_shape(rep, d, methods, ctors, symmap)
     rule_mode(rep)
+    rule_types(rep)
     rep.unit("span<ElementType, Extent> pattern: %d methods, %d constructors" % (sum(len(v) for v in methods.values()), len(ctors)))
     return rep
